@@ -32,20 +32,24 @@ fn age(t: chrono::DateTime<chrono::Utc>) -> i64 {
 }
 
 macro_rules! pairing {
-    ($name:ident, $tc:expr) => {
+    ($name:ident, $tc:expr, $f:expr) => {
         #[cfg_attr(kani, kani::proof)]
         #[cfg_attr(kani, kani::unwind(33))]
         #[cfg_attr(kani, kani::stub(chrono::Utc::now, crate::verif::rt::stub_now))]
         #[cfg_attr(kani, kani::stub(crate::decoder::get_downlink_format, super::rows::stub_get_df))]
+        #[cfg_attr(kani, kani::stub(crate::decoder::adsb::icao::get_icao, super::rows::stub_get_icao))]
         #[cfg_attr(kani, kani::stub(crate::decoder::utils::get_message_type, super::rows::stub_get_tc))]
         #[cfg_attr(kani, kani::stub(crate::decoder::adsb::position::cpr_location, super::rows::stub_cpr_location))]
+        #[cfg_attr(kani, kani::stub(crate::decoder::adsb::position::cpr, super::rows::stub_cpr))]
         #[cfg_attr(kani, kani::stub(crate::decoder::observer::get_observer_coords, super::rows::stub_observer))]
         #[cfg_attr(kani, kani::stub(crate::decoder::plane::update_position::haversine, super::rows::stub_haversine))]
+        #[cfg_attr(kani, kani::stub(crate::decoder::adsb::ais::ais, super::rows::stub_ais))]
         #[cfg_attr(verif_replay, test)]
         fn $name() {
             let m = frame28();
             pin_df(&m, 17);
             pin_tc(&m, $tc);
+            pin_f(&m, $f);
             let use_update = any_bool();
             let relaxed = any_bool();
             draw_position_env();
@@ -55,7 +59,7 @@ macro_rules! pairing {
             let before = clone_row(&p);
             apply(&mut p, &m, df, use_update, relaxed);
 
-            let f = bit(&m, 54) as usize;
+            let f: usize = $f;
             let (yz, xz) = (bits(&m, 55, 71) as u32, bits(&m, 72, 88) as u32);
             let o = 1 - f;
             // slot bookkeeping
@@ -74,7 +78,7 @@ macro_rules! pairing {
                 None => false,
             };
             vcover!(pair && good && use_update, "valid pair commits a position (-U)");
-            vcover!(pair && good && !use_update && f == 1, "valid pair commits a position (default path, odd frame newer)");
+            vcover!(pair && good && !use_update, "valid pair commits a position (default path)");
             vcover!(!pair && other_age == 10 && yz != 0 && xz != 0 && before.cpr_lat[o] != 0 && before.cpr_lon[o] != 0, "other frame exactly 10 s old");
             vcover!(pair && other_age == 9, "other frame 9 s old");
             vcover!(pair && !good && ret.is_some(), "decode out of range");
@@ -105,12 +109,15 @@ macro_rules! pairing {
         }
     };
 }
-// @harness name=c08_pairing_tc11 props=C08,C19 tier=quick cap=1500
-// pairing guard, TC11, -U/-R symbolic, slot ages symbolic around the 10 s limit
-pairing!(c08_pairing_tc11, 11);
-// @harness name=c08_pairing_tc9 props=C08 tier=thorough cap=1500
-// pairing guard, TC9
-pairing!(c08_pairing_tc9, 9);
-// @harness name=c08_pairing_tc18 props=C08 tier=thorough cap=1500
-// pairing guard, TC18
-pairing!(c08_pairing_tc18, 18);
+// @harness name=c08_pairing_tc11_even props=C08,C19 tier=quick cap=1500
+// pairing guard, TC11, even frame arrives (odd slot older), -U/-R symbolic, slot ages symbolic around the 10 s limit
+pairing!(c08_pairing_tc11_even, 11, 0);
+// @harness name=c08_pairing_tc11_odd props=C08,C19 tier=quick cap=1500
+// pairing guard, TC11, odd frame arrives
+pairing!(c08_pairing_tc11_odd, 11, 1);
+// @harness name=c08_pairing_tc9_odd props=C08 tier=thorough cap=1500
+// pairing guard, TC9, odd frame arrives
+pairing!(c08_pairing_tc9_odd, 9, 1);
+// @harness name=c08_pairing_tc18_even props=C08 tier=thorough cap=1500
+// pairing guard, TC18, even frame arrives
+pairing!(c08_pairing_tc18_even, 18, 0);
